@@ -126,7 +126,7 @@ func main() {
 
 func run(repo, verif, prop, tier, only, dump string, list, verbose bool, timeout int, start time.Time) int {
 	if timeout == 0 {
-		timeout = 10
+		timeout = 20
 		if tier == "thorough" {
 			timeout = 60
 		}
@@ -288,7 +288,7 @@ func run(repo, verif, prop, tier, only, dump string, list, verbose bool, timeout
 						l2 = j.render("light")
 						tag = "(inst)"
 					}
-					sr = SolveN(l2, 15, false, 2)
+					sr = SolveN(l2, 30, false, 2)
 					atomic.AddInt64(&statLight2N, 1)
 					atomic.AddInt64(&statLight2Ns, int64(time.Since(t2)))
 					if sr.Status == "unsat" {
@@ -314,9 +314,15 @@ func run(repo, verif, prop, tier, only, dump string, list, verbose bool, timeout
 				var last SolverResult
 				for ai := range j.alts {
 					a := &j.alts[ai]
-					ar := SolveN(a.render("light"), 8, false, 2)
+					ta := time.Now()
+					ar := SolveN(a.render("light"), 25, false, 2)
+					stage := "light"
 					if ar.Status != "unsat" {
 						ar = Solve(a.render("full"), to, false)
+						stage = "full"
+					}
+					if os.Getenv("VERIF_STAGES") != "" {
+						fmt.Fprintf(os.Stderr, "STAGE alt%d %s %s subgoal %d %s %dms\n", ai, stage, j.res.O.Name, j.sgIdx, ar.Status, time.Since(ta).Milliseconds())
 					}
 					last = ar
 					if ar.Status != "unsat" {
